@@ -59,6 +59,12 @@ def plan(tier, seed):
             c = contents(f, seed)
             devs.append(["vol", rec, f["key"], {"hex": c[(j + 1) % len(c)][1].hex()}])
         cases.append({"spec": SPEC, "devs": devs, "label": f"all-text-fields#{j}"})
+    # whole records blank / numeric-looking at once (a text record that "looks like" a file pointer record)
+    for rec_sel in (("text_record",), ("volume_descriptor",), ("text_record", "volume_descriptor")):
+        for label, fill in (("blank", lambda f: b" " * f["w"]), ("digits", lambda f: (b"2020 1011 0042 7" * 8)[: f["w"]]), ("short-digits", lambda f: b"7".ljust(f["w"]))):
+            devs = [["vol", rec, f["key"], {"hex": fill(f).hex()}] for rec, f in text_fields() if rec in rec_sel]
+            for n in (0, 1, 4):
+                cases.append({"spec": {**SPEC, "vol": {"n_fp": n}}, "devs": devs, "label": f"all text fields of {'+'.join(rec_sel)} {label}, {n} file pointers"})
     for ts in timestamps(tier):
         cases.append({"spec": SPEC, "devs": [["vol", "volume_descriptor", DT_FIELD, ts]], "label": f"creation={ts}"})
     for n in range(0, 13):
